@@ -770,6 +770,17 @@ def glue_trio() -> None:
             for child_task in context.obj.child_tasks
         ]
 
+    @elaborate_context.register(trio.Nursery)
+    def elaborate_nursery_itself(nursery: Any, context: Context) -> None:
+        # An unwrap hook may replace a manager by the nursery that it opens
+        # (which is what a context shows as its obj once the above has
+        # run; our glue for pytest-trio fixtures does that): the nursery's
+        # tasks are its children all the same
+        context.children = [
+            _extract.extract_child(child_task, for_task=True)
+            for child_task in nursery.child_tasks
+        ]
+
     @elaborate_frame.register(trio.to_thread.run_sync)
     def elaborate_to_thread_run_sync(frame: Frame, next_inner: object) -> object:
         thread_name = frame.pyframe.f_locals.get("thread_name")
